@@ -17,6 +17,25 @@ def focus(r, o):
         o["convert_host"] = True
 
 
+def extra_cases(rng, quick):
+    """`:host` rules before, inside and AFTER nested at-rules of the same enclosing at-rule (the wrapper of a `:host` that follows a closed inner
+    at-rule is the enclosing chain again), at several depths, with ordinary rules in between"""
+    from . import cssgen
+    out = []
+    H = lambda c: ":host{color:%s}" % c
+    inner = ["@supports (display:grid){.b{x:1} %s}" % H("green"), "@media print{%s .i{y:2}}" % H("gray"), "@layer l{@supports (a:b){%s}}" % H("teal"), "@media (min-width:2px){.n{z:3}}"]
+    for wrap in ("@media (min-width:100px){%s}", "@supports (display:flex){%s}", "@layer base{@media screen{%s}}", "%s"):
+        for a in inner:
+            for b in inner[:2] + [""]:
+                body = " ".join([H("red"), a, ".c{w:1}", H("blue"), b, H("black")])
+                css = (wrap % body) + " " + H("white") + " .z{q:1}"
+                for o in ({"convert_host": True, "class_prefix": "p"}, {"convert_host": True, "class_prefix": "p", "host_is": "comp/x"}, {"convert_host": False}):
+                    base = cssgen.gen_options(rng.fork(("o", len(out))))
+                    base.update(o)
+                    out.append((base, css))
+    return out
+
+
 def run(chk):
     chk.rule = ("generated stylesheets with :host rules at arbitrary at-rule nesting depth interleaved with ordinary rules x {convert_host, "
                 "class_prefix, host_is}; (1) model vs implementation on both outputs and the warnings; (2) oracle: every rule appears exactly once "
@@ -28,7 +47,7 @@ def run(chk):
                        "combination changes neither output and adds one warning, anything else is the generic rule and leaves the low output "
                        "untouched; PARTIAL: that the rule loop (`rules`, fuel-bounded in the model) visits every rule once and keeps the order is "
                        "covered by correspondence + oracle, not by a theorem"]
-    csscheck.run_property(chk, "C17", "GE.Thm.C17", THEOREMS, 700, 12000, focus=focus,
+    csscheck.run_property(chk, "C17", "GE.Thm.C17", THEOREMS, 700, 12000, focus=focus, extra_cases=extra_cases,
                           nontrivial=lambda o, css, res: ":host" in css)
 
 
